@@ -29,6 +29,11 @@ const modPath = "git.sr.ht/~adrian-blx/psa-dhcp/"
 var targets = map[string][]string{
 	"lib/layer":           {"setV4Checksum", "ipv4csum", "udp4csum", "pseudohdrcsum", "UDP.Assemble", "DecodeUDP", "IPv4.Assemble", "DecodeIPv4", "ARP.Assemble", "DecodeARP"},
 	"lib/server/ipdb/uip": {"Uip.ToV4", "Uip.Valid"},
+	"lib/server/ipdb":     {"fromTo", "IPDB.toUip", "IPDB.InManagedRange"},
+	"lib/server/replies":  {"assembleUdp", "dstFromFlag", "AssembleOffer", "AssembleACK", "AssembleNACK"},
+	"lib/server":          {"duidFromHwAddr"},
+	"lib/client/verify":   {"verifyCommon", "verifyGenAck", "VerifyOffer", "VerifySelectingAck", "VerifyRenewingAck", "VerifyRebindingAck"},
+	"lib/client/msgtmpl":  {"tmpl.request"},
 	"lib/dhcpmsg": {"Decode", "Message.Assemble", "setU16Int", "setU32Int", "setIPv4", "OptionType", "OptionHostname", "OptionDomainName",
 		"OptionServerIdentifier", "OptionRequestedIP", "OptionRouter", "OptionDNS", "OptionNTP", "optIP", "OptionMaxMessageSize",
 		"OptionInterfaceMTU", "OptionClientIdentifier", "OptionParametersList", "OptionSubnetMask",
@@ -42,6 +47,8 @@ type X struct {
 	structs map[*types.Named]bool
 	order   []*types.Named
 	hints   map[string]string
+	globals []string
+	gseen   map[*types.Var]string
 }
 
 type FuncInfo struct {
@@ -54,11 +61,21 @@ type FuncInfo struct {
 	calls     []*types.Func
 	text      string
 	err       string
+	// shape of the translated function (differs from decl for closure-returning functions)
+	params  []*types.Var  // receiver, parameters, then the parameters of the returned func literal
+	fwd     []types.Type  // forwarder (`return g(args)` with g closure-returning): types of the extra parameters passed on
+	fwdCall *ast.CallExpr // the call being forwarded
+	results *types.Tuple  // results of the translated function
+	body    []ast.Stmt    // statements of the translated function
+	oracles []oracle      // external nondeterministic values (math/rand) turned into trailing parameters
+	closure bool          // the Go function returns a func value (the translation is its uncurried form)
 }
+
+type oracle struct{ name, typ string }
 
 func main() {
 	repo, out := os.Args[1], os.Args[2]
-	x := &X{funcs: map[*types.Func]*FuncInfo{}, structs: map[*types.Named]bool{}, hints: map[string]string{}}
+	x := &X{funcs: map[*types.Func]*FuncInfo{}, structs: map[*types.Named]bool{}, hints: map[string]string{}, gseen: map[*types.Var]string{}}
 	if len(os.Args) > 3 {
 		if b, err := os.ReadFile(os.Args[3]); err == nil {
 			if err := json.Unmarshal(b, &x.hints); err != nil {
@@ -108,6 +125,9 @@ func main() {
 			fmt.Fprintf(os.Stderr, "xlate: target %s.%s not found\n", p.PkgPath, n)
 		}
 	}
+	for _, fi := range x.funcs {
+		x.shape(fi, 0)
+	}
 	x.analyse()
 	var sb strings.Builder
 	sb.WriteString("import PsaDhcp.Go.Prelude\n/-\nGENERATED by /verif/xlate from /repo's current working tree on every check — do not edit.\nShallow translation of the Go functions named in xlate/main.go (`targets`).\n-/\nset_option linter.unusedVariables false\nnamespace PsaDhcp.Gen\nopen PsaDhcp PsaDhcp.Go\n\n")
@@ -118,6 +138,9 @@ func main() {
 	}
 	for _, n := range x.order {
 		sb.WriteString(x.structDef(n))
+	}
+	for _, g := range x.globals {
+		sb.WriteString(g)
 	}
 	var report []string
 	for _, fi := range fis {
@@ -184,4 +207,63 @@ func (x *X) sorted() []*FuncInfo {
 		visit(fi)
 	}
 	return out
+}
+
+// shape determines parameters, results and body of the translated function. A function whose body
+// is `return func(p...) R {...}` is translated in uncurried form (outer parameters, then p...);
+// `return g(args)` with g such a function forwards the remaining parameters.
+func (x *X) shape(fi *FuncInfo, depth int) {
+	if fi.results != nil || fi.body != nil || depth > 8 {
+		return
+	}
+	sig := fi.obj.Type().(*types.Signature)
+	if sig.Recv() != nil {
+		fi.params = append(fi.params, sig.Recv())
+	}
+	for i := 0; i < sig.Params().Len(); i++ {
+		fi.params = append(fi.params, sig.Params().At(i))
+	}
+	fi.results, fi.body = sig.Results(), fi.decl.Body.List
+	if sig.Results().Len() != 1 {
+		return
+	}
+	rsig, ok := sig.Results().At(0).Type().Underlying().(*types.Signature)
+	if !ok {
+		return
+	}
+	fi.closure = true
+	fi.results = rsig.Results()
+	fi.body = nil
+	if len(fi.decl.Body.List) != 1 {
+		fi.err = "closure-returning function with more than a return statement"
+		return
+	}
+	ret, ok := fi.decl.Body.List[0].(*ast.ReturnStmt)
+	if !ok || len(ret.Results) != 1 {
+		fi.err = "closure-returning function with more than a return statement"
+		return
+	}
+	switch r := ret.Results[0].(type) {
+	case *ast.FuncLit:
+		for _, f := range r.Type.Params.List {
+			for _, id := range f.Names {
+				fi.params = append(fi.params, fi.pkg.TypesInfo.Defs[id].(*types.Var))
+			}
+		}
+		fi.body = r.Body.List
+	case *ast.CallExpr:
+		g := calleeFunc(fi.pkg.TypesInfo, r)
+		gi := x.funcs[g]
+		if gi == nil {
+			fi.err = "forwards to a function that is not translated"
+			return
+		}
+		x.shape(gi, depth+1)
+		for i := 0; i < rsig.Params().Len(); i++ {
+			fi.fwd = append(fi.fwd, rsig.Params().At(i).Type())
+		}
+		fi.fwdCall = r
+	default:
+		fi.err = "closure-returning function of unsupported shape"
+	}
 }
